@@ -358,6 +358,63 @@ def gen_configs(chk):
     return cfgs
 
 
+# ------------------------------------------------------------------------------------------ the exchange inside a Calibrator
+def calibrator_level(chk):
+    """The same clauses observed through Calibrator.calibrate (token components of the calibrator family, scripted agent that
+    logs its learn calls): early stops (convergence precision), several sessions, calibrate(0).  Oracle only - by the time
+    calibrate() has returned (the session has ended) every batch but the bootstrap one has exactly one learn call, in order,
+    for the sampler that ran it, with the reward of that very batch."""
+    from props import calib_common as cc
+    from props import calib_family as cf
+
+    rng = chk.rng
+    n = 60 if chk.tier == "quick" else 600
+    out, stats = [], Counter()
+    for i in range(n):
+        c = cc.gen_case(rng, i, max_ops=5, max_samplers=4, allow=("calibrate",), rl=True, prec_prob=1 if i % 4 else 10**9, nmax=4)
+        c["palette"] = [abs(x) for x in c["palette"]]
+        o = cc.run_case(c)
+        if o["ctor_exn"] or not o["views"]:
+            continue
+        tup = o["rl"]["samplers"]
+        stopped_early = False
+        fails = []
+        for k, (op, v) in enumerate(zip(c["ops"], o["views"])):
+            if v.get("exn"):
+                fails.append(("calibrator-raised", f"op {k}: {v.get('exc')}"))
+                break
+            gs = cf.groups_of(v)
+            if op[0] == "calibrate" and op[1] > 0 and k > 0 and len(gs) - len(cf.groups_of(o["views"][k - 1])) < op[1]:
+                stopped_early = True
+            if k == 0 and op[0] == "calibrate" and len(gs) < op[1]:
+                stopped_early = True
+            want = max(0, len(gs) - 1)
+            if v.get("nlearned") != want:
+                fails.append(("calibrator-learn-once", f"op {k} {op}: {len(gs)} batches recorded (1 bootstrap), {v.get('nlearned')} "
+                                                       f"learn calls when calibrate returned, expected {want}"))
+                break
+        last = o["views"][-1]
+        gs = cf.groups_of(last)
+        learned = o.get("learned", [])
+        if not fails and len(learned) == max(0, len(gs) - 1):
+            mins = [min(last["losses"][j] for j in idxs) for _, _, idxs in gs]
+            er = expected_rewards(mins)
+            for g, (u, _c, _idxs) in enumerate(gs[1:], start=1):
+                a, r = learned[g - 1]
+                if a >= len(tup) or tup[a][1] != u:
+                    fails.append(("calibrator-misattributed", f"batch {g} ran sampler uid {u}, its learn call credits action {a}"))
+                    break
+                if er.get(g) is not None and r != er[g]:
+                    fails.append(("calibrator-wrong-reward", f"batch {g}: reward {r}, expected {er[g]} from the recorded losses"))
+                    break
+        stats["calibrator runs"] += 1
+        stats["calibrator runs with an early stop"] += int(stopped_early)
+        stats["calibrator sessions"] += len(c["ops"])
+        if fails:
+            out.append((c, o, fails))
+    return out, stats
+
+
 def _explore_job(args):
     cfg, cap = args
     t0 = time.time()
@@ -464,6 +521,19 @@ def run(chk, replay=None):
                        "coq_case": lits[i], "disagreeing_cases": len(bad)}, no_input=True)
     for e in errors:
         chk.violation({"kind": "correspondence", "name": "coqc"}, {"failed": "correspondence:coqc", "detail": e}, no_input=True)
+    cal_fails, cal_stats = ([], Counter()) if replay else calibrator_level(chk)
+    seen_clause = set()
+    for c, o, fails in cal_fails:
+        clause, text = fails[0]
+        if clause in seen_clause:
+            continue
+        seen_clause.add(clause)
+        chk.violation({"kind": "oracle", "clause": clause},
+                      {"failed": f"oracle:{clause}: {text}", "case": {x: c[x] for x in c}, "learned": o.get("learned"),
+                       "last_view": {k: o["views"][-1][k] for k in ("params", "losses", "batchidx", "nlearned")},
+                       "note": "token calibrator with an RL scheduler (harness/props/calib_common.py): parameters encode (sampler uid, call, "
+                               "history length, row); losses come from the case's palette"})
+    stats.update(cal_stats)
     if unreleased:
         chk.notes.append(f"{unreleased} controlled threads could not be released")
     if replay:
